@@ -578,6 +578,22 @@ func hasClass(s *Snippet, c string) bool {
 	return false
 }
 
+// Big writes one package containing every snippet that is compatible with the real API
+// binding: a probe on which most checkers fire (used by the process-level checks).
+func (g *Gen) Big(name string) (*PkgSpec, error) {
+	if err := g.WriteShadows(); err != nil {
+		return nil, err
+	}
+	b := Binding{}
+	var snips []*Snippet
+	for _, s := range Snippets {
+		if compatible(s, b) && !s.Ns {
+			snips = append(snips, s)
+		}
+	}
+	return g.Emit(filepath.Join(g.Out, name), name, b, snips, "real")
+}
+
 // SelfTest writes one package per (snippet, theme) pair that is compatible, so that each
 // snippet's validity can be checked in isolation.
 func (g *Gen) SelfTest(manifest string) error {
